@@ -247,7 +247,21 @@ func (w *ApiWorld) ExecRpc(r Rpc) *RpcResult {
 		}
 	}
 	if r.Kind == "op" {
-		or := w.World.Exec(*r.Op)
+		var or *Result
+		func() {
+			defer func() {
+				if p := recover(); p != nil {
+					res.Panic = fmt.Sprint(p)
+				}
+			}()
+			or = w.World.Exec(*r.Op)
+		}()
+		if or == nil {
+			// the handler panicked: the production interceptor chain has no recovery
+			res.Status = "PANIC"
+			res.DumpAfter = res.DumpBefore
+			return res
+		}
 		res.Status = "OK"
 		if strings.HasPrefix(or.Resp, "E:") {
 			res.Status = strings.TrimPrefix(or.Resp, "E:")
